@@ -40,7 +40,7 @@ func compareChain(sh chainShape, table map[byte]refmodel.Behaviour, st *fw.Stats
 	desc := func() string {
 		hooks := ""
 		if sh.Hooks != "" {
-			hooks = fmt.Sprintf(" on a router with %q (E=OnError hook, P=OnPanic hook, W=a first middleware wraps c.Resp in a pass-through writer, H=the router served a hijacking request and a 404 before, C=dynamic route on a caching router measured on the second identical request, X=the router served a request that aborted and then panicked (no hook) before, D=debug mode on)", sh.Hooks)
+			hooks = fmt.Sprintf(" on a router with %q (E=OnError hook, P=OnPanic hook, W=a first middleware wraps c.Resp in a pass-through writer, H=the router served a hijacking request and a 404 before, C=dynamic route on a caching router measured on the second identical request, X=the router served a request that aborted and then panicked (no hook) before, D=debug mode on, S=group middleware added by separate Use calls and a sibling route with its own middleware registered afterwards)", sh.Hooks)
 		}
 		return fmt.Sprintf("chain of %d handlers (global %d, group %d, route %d via %s, + main), behaviours %q%s", sh.N, sh.Split[0], sh.Split[1], sh.Split[2], sh.Via, sh.Beh, hooks)
 	}
@@ -227,6 +227,30 @@ func c05Gen(tier string, emit func(c05Case)) {
 				})
 			}
 		}
+	}
+	// a sibling route with its own middleware registered after the measured one, in a group whose middleware slice has
+	// spare capacity; and a custom NotFound handler installed before the global middleware
+	// ... with three (and five) group middleware: append gives the slice spare capacity exactly then
+	for _, sp := range [][3]int{{0, 3, 1}, {1, 3, 1}, {0, 3, 2}, {0, 5, 1}} {
+		n := sp[0] + sp[1] + sp[2] + 1
+		for _, via := range []string{"variadic", "use"} {
+			vectors("pqs", n, func(b string) { push(chainShape{N: n, Split: sp, Via: via, Beh: b, Hooks: "S"}) })
+		}
+	}
+	for n := 3; n <= 4; n++ {
+		for _, sp := range splitsOf(n - 1) {
+			if sp[1] == 0 || sp[2] == 0 {
+				continue
+			}
+			for _, via := range []string{"variadic", "use"} {
+				vectors("pqastm", n, func(b string) { push(chainShape{N: n, Split: sp, Via: via, Beh: b, Hooks: "S"}) })
+			}
+		}
+	}
+	for n := 2; n <= 4; n++ {
+		vectors("pnqabtsmuz", n, func(b string) {
+			push(chainShape{N: n, Split: [3]int{n - 1, 0, 0}, Via: "notfound-custom-first", Beh: b})
+		})
 	}
 	// unmatched requests: global middleware around the built-in not-found responder, which must not start after an abort
 	for n := 2; n <= 4; n++ {
